@@ -845,6 +845,8 @@ static void c_solve_exact (void)
 	nc = mpq_QSget_colcount (P[k]); nr = mpq_QSget_rowcount (P[k]);
 	if (strchr (fl, 'x')) x = qalloc (nc + nr);
 	if (strchr (fl, 'y')) y = qalloc (nr);
+	/* output arrays as a caller re-using them would hand them over: full of old values, every entry has to be written */
+	{ int t; if (x) for (t = 0; t < nc + nr; t++) mpq_set_si (x[t], 7 + t, 3); if (y) for (t = 0; t < nr; t++) mpq_set_si (y[t], -5 - t, 11); }
 	if (bk >= 0 && !B[bk]) B[bk] = calloc (1, sizeof (QSbasis));
 	BEGIN ("solve_exact");
 	rc = QSexact_solver (P[k], x, y, bk >= 0 ? B[bk] : 0, algo, &status);
@@ -931,6 +933,17 @@ static void c_load_basis_norms (void)
 		die ("load_basis_norms: arrays shorter than problem");
 	BEGIN ("load_basis_norms"); rc = mpq_QSload_basis_and_row_norms_array (P[k], cs, rs, nm); ev_int ("rc", rc); END ();
 	qfree (nm, n);
+}
+/* roundtrip_basis_norms pK : the save / restore pattern of a branching host: fetch basis + dual steepest-edge row norms, load them back */
+static void c_roundtrip_basis_norms (void)
+{
+	int k = nslot ('p'), rc, rc2 = -1, nc = P[k] ? mpq_QSget_colcount (P[k]) : 0, nr = P[k] ? mpq_QSget_rowcount (P[k]) : 0;
+	char *cs = malloc (nc + 1), *rs = malloc (nr + 1); mpq_t *nm = qalloc (nr);
+	memset (cs, '?', nc); memset (rs, '?', nr);
+	BEGIN ("roundtrip_basis_norms");
+	rc = mpq_QSget_basis_and_row_norms_array (P[k], cs, rs, nm); ev_int ("rc", rc);
+	if (!rc) { rc2 = mpq_QSload_basis_and_row_norms_array (P[k], cs, rs, nm); ev_int ("rc_load", rc2); ev_chars ("cstat", cs, nc); ev_chars ("rstat", rs, nr); }
+	END (); free (cs); free (rs); qfree (nm, nr);
 }
 static void c_compute_row_norms (void) { int k = nslot ('p'), rc; BEGIN ("compute_row_norms"); rc = mpq_QScompute_row_norms (P[k]); ev_int ("rc", rc); END (); }
 static void c_test_row_norms (void) { int k = nslot ('p'), rc; BEGIN ("test_row_norms"); rc = mpq_QStest_row_norms (P[k]); ev_int ("rc", rc); END (); }
@@ -1324,7 +1337,7 @@ static cmd_t cmds[] = {
 	C (get_named_pi), C (get_named_slack),
 	C (solve_exact), C (opt_primal), C (opt_dual), C (pivotin_row), C (pivotin_col), C (get_infeas),
 	C (get_basis), C (make_basis), C (dump_basis), C (free_basis), C (load_basis), C (load_basis_array), C (get_basis_array),
-	C (get_basis_norms), C (load_basis_norms), C (compute_row_norms), C (test_row_norms), C (write_basis), C (read_basis),
+	C (get_basis_norms), C (roundtrip_basis_norms), C (load_basis_norms), C (compute_row_norms), C (test_row_norms), C (write_basis), C (read_basis),
 	C (read_and_load_basis), C (basis_optimalstatus), C (basis_dualstatus), C (verify),
 	C (tableau), C (tableau_direct), C (get_binv_row), C (get_tableau_row),
 	C (write_prob), C (write_prob_file), C (read_prob), C (get_prob), C (copy), C (copy_dbl), C (copy_mpf), C (free),
